@@ -9,11 +9,12 @@
     i = 1 .. len(aggregate): bounds not matched so far x models whose last i key levels are null, inner on the parent keys, cross
     join at the top with at most one model; matched rows accumulate;
  R4 statistics and formulas: centre = baseline-weighted median, scale = beta x bootstrapped sigma at (3+alpha)/4, inflation =
-    sum x^2 / (sum x)^2; unit correction = ppf((3+alpha)/4; mu, sqrt(infl + 1) sigma); aggregate bound =
-    S(w L) - ppf((3+alpha)/4; W mu_l, sigma_l sqrt(SS + infl W^2)) and S(w U) + ppf(..; W mu_u, sigma_u sqrt(SS + infl W^2));
+    sum x^2 / (sum x)^2; with z = ppf((3+alpha)/4) of the STANDARD normal: unit correction = mu + z sqrt(infl + 1) sigma; aggregate
+    bound = S(w L) - (W mu_l + z sigma_l sqrt(SS + infl W^2)) and S(w U) + (W mu_u + z sigma_u sqrt(SS + infl W^2)); the
+    location-scale form is finite for sigma = 0, handing the scale to ppf(q, loc, scale) is NaN there and is reported (F27);
  R5 weighted median: sort by value, accumulate weights, first element if its weight exceeds 1/2, average of the two neighbours when
     the cumulative weight hits 1/2 exactly, else the next element.
-Not decided: finiteness of the bootstrapped scale (numeric).
+Not decided: finiteness of the bootstrapped scale itself (numeric); a scale of exactly 0 is covered by R4.
 """
 from __future__ import annotations
 
@@ -173,27 +174,40 @@ def check(ctx):
     ub = ctx.builder()
     us = ub.summarize(uf, self_cls=gcls)
     Nq = symexpr.Normalizer(leaf=lambda x: x[1] if x[0] == "param" else None)
-    ppfs = []
-    for pc, name, t, n in us.assigns:
-        if t[0] == "call" and ir.show(t[1]).endswith("ppf"):
-            ppfs.append((name, t))
-    ctx.sites("C15.R4.unit", len(ppfs), 2, "normal quantile corrections at unit level")
-    for name, t in ppfs:
-        side = "lower" if "lower" in name else "upper"
-        gm = None
-        okq = Nq.norm(_kw(t, "q")) == q34
-        loc, scale = _kw(t, "loc"), _kw(t, "scale")
-        okl = loc is not None and loc[0] == "attr" and loc[2] == f"mu_{side}_bound"
-        oksc = False
-        if scale is not None and scale[0] == "bin" and scale[1] == "*":
-            a, c = scale[2], scale[3]
-            sq, sg = (a, c) if a[0] == "call" else (c, a)
-            oksc = (sq[0] == "call" and ir.show(sq[1]).endswith("sqrt") and sq[2][0][0] == "bin" and sq[2][0][1] == "+" and ("const", 1) in (sq[2][0][2], sq[2][0][3])
-                    and any(x[0] == "attr" and x[2] == "var_inflate" for x in (sq[2][0][2], sq[2][0][3])) and sg[0] == "attr" and sg[2] == f"sigma_{side}_bound")
-        ok = okq and okl and oksc
+    # the correction is the quantile of N(mu, sd^2) in location-scale form mu + sd * z, z = ppf((3 + alpha) / 4) of the STANDARD
+    # normal: scipy's ppf(q, loc, scale) is the same number for sd > 0 but NaN for sd = 0 (identical calibration scores, beta = 0),
+    # and C15 promises a finite interval (F27)
+    def gleaf(x):
+        if x[0] == "param":
+            return x[1]
+        if x[0] == "attr" and x[2] in ("var_inflate",) + tuple(f"{p_}_{s_}_bound" for p_ in ("mu", "sigma") for s_ in ("lower", "upper")):
+            return x[2]
+        return None
+
+    Ng = symexpr.Normalizer(leaf=gleaf)
+    nfound = 0
+    for side in ("lower", "upper"):
+        cands = [t for pc, name, t, n in us.assigns
+                 if any(x[0] == "attr" and x[2] == f"mu_{side}_bound" for x in ir.walk(t))
+                 and any(x[0] == "call" and ir.show(x[1]).endswith("ppf") for x in ir.walk(t))]
+        if not cands:
+            continue
+        nfound += 1
+        t = min(cands, key=lambda x: len(ir.show(x, maxdepth=30)))
+        want = symexpr.Normalizer().norm(symexpr.parse(
+            f"mu_{side}_bound + ppf((3 + alpha) / 4) * sqrt(var_inflate + 1) * sigma_{side}_bound"))
+        try:
+            got = Ng.norm(t)
+            ok = got == want
+            gk = got.key()
+        except AnalysisError as ex:
+            ok, gk = False, str(ex)
+        scaled = [x for x in ir.walk(t) if x[0] == "call" and ir.show(x[1]).endswith("ppf") and (_kw(x, "scale") is not None or len(x[2]) > 2)]
         ctx.ob("C15.R4.unit-correction", f"{uf.qualname}|{side} correction", ok, uf.where(),
-               f"{side} correction = ppf((3+alpha)/4; mu_{side}, sqrt(var_inflate + 1) * sigma_{side})" if ok
-               else f"{side} correction = {ir.show(t, maxdepth=4)}")
+               f"{side} correction = mu_{side} + ppf((3+alpha)/4) * sqrt(var_inflate + 1) * sigma_{side} (finite for sigma = 0)" if ok
+               else (f"{side} correction passes the scale to ppf(): NaN when sigma_{side} is 0 (identical calibration scores, beta = 0)" if scaled
+                     else f"{side} correction = {gk}"))
+    ctx.sites("C15.R4.unit", nfound, 2, "normal quantile corrections at unit level")
     gmcall = [t for pc, name, t, n in us.assigns if t[0] == "call" and t[1][0] == "attr" and t[1][2] == "fit" and "GaussianModel" in ir.show(t[1][1], maxdepth=2)]
     oku = bool(gmcall) and _kw(gmcall[0], "aggregate") == ("list", ()) and _kw(gmcall[0], "alpha") == ("param", "alpha")
     ctx.ob("C15.R4.unit-model", f"{uf.qualname}|unit model = all calibration units together", oku, uf.where(),
@@ -223,10 +237,10 @@ def check(ctx):
         return None
 
     Na = symexpr.Normalizer(leaf=leaf)
-    exp = {"lb": "nonreporting_aggregate_lower_bound - ppf(loc=nonreporting_weight_sum * mu_lower_bound, q=(3 + alpha) / 4, "
-                 "scale=sigma_lower_bound * sqrt(nonreporting_weight_ssum + var_inflate * nonreporting_weight_sum**2))",
-           "ub": "nonreporting_aggregate_upper_bound + ppf(loc=nonreporting_weight_sum * mu_upper_bound, q=(3 + alpha) / 4, "
-                 "scale=sigma_upper_bound * sqrt(nonreporting_weight_ssum + var_inflate * nonreporting_weight_sum**2))"}
+    exp = {"lb": "nonreporting_aggregate_lower_bound - (nonreporting_weight_sum * mu_lower_bound + ppf((3 + alpha) / 4) * "
+                 "sigma_lower_bound * sqrt(nonreporting_weight_ssum + var_inflate * nonreporting_weight_sum**2))",
+           "ub": "nonreporting_aggregate_upper_bound + (nonreporting_weight_sum * mu_upper_bound + ppf((3 + alpha) / 4) * "
+                 "sigma_upper_bound * sqrt(nonreporting_weight_ssum + var_inflate * nonreporting_weight_sum**2))"}
     for colname, spec in exp.items():
         try:
             v = F.col(matched, ("const", colname))
@@ -234,6 +248,9 @@ def check(ctx):
             want = symexpr.Normalizer().norm(symexpr.parse(spec))
             ok = got == want
             detail = f"{colname} = {spec}" if ok else f"{colname} is {got.key()}"
+            if not ok and "scale=" in got.key():
+                detail = (f"{colname} passes the scale to ppf(): NaN when the group's sigma is 0 (identical calibration scores, beta = 0), "
+                          f"which the later fillna turns into a zero-width interval at the counted votes; {detail}")
         except AnalysisError as ex:
             ok, detail = False, f"{colname}: {ex}"
         ctx.ob("C15.R4.aggregate-bound", f"{af.qualname}|{colname}", ok, af.where(), detail)
